@@ -57,11 +57,11 @@ var allEACLOps = []eacl.Operation{eacl.OperationGet, eacl.OperationHead, eacl.Op
 	eacl.OperationSearch, eacl.OperationRange, eacl.OperationRangeHash}
 
 // DenyOthersTable builds an eACL table with, for every operation, one DENY record for role OTHERS
-// restricted by the given filter.
-func DenyOthersTable(cnr cid.ID, f eacl.Filter) *eacl.Table {
+// restricted by the given filters (none = unconditional).
+func DenyOthersTable(cnr cid.ID, f ...eacl.Filter) *eacl.Table {
 	var rs []eacl.Record
 	for _, op := range allEACLOps {
-		rs = append(rs, eacl.ConstructRecord(eacl.ActionDeny, op, []eacl.Target{eacl.NewTargetByRole(eacl.RoleOthers)}, f))
+		rs = append(rs, eacl.ConstructRecord(eacl.ActionDeny, op, []eacl.Target{eacl.NewTargetByRole(eacl.RoleOthers)}, f...))
 	}
 	t := eacl.NewTableForContainer(cnr, rs)
 	return &t
@@ -96,7 +96,7 @@ func ObjectIDFilter(id oid.ID) eacl.Filter { return eacl.NewFilterObjectWithID(i
 // node), bound to the container, for the given verb, lifetime [iat,nbf..exp].
 func SessionV1(cnr cid.ID, verb session.ObjectVerb, exp uint64) *protosession.SessionToken {
 	var t session.Object
-	t.SetID(uuid.UUID{0x5e, 0x55, 1, 2, 3, 4, 5, 6, 7, 8, 9, 10, 11, 12, 13, 14})
+	t.SetID(uuid.UUID{0x5e, 0x55, 1, 2, 3, 4, 0x45, 6, 0x87, 8, 9, 10, 11, 12, 13, 14}) // fixed, version 4 layout
 	t.SetAuthKey((*neofsecdsa.PublicKey)(&Key(SessionKey).PrivateKey.PublicKey))
 	t.SetIat(1)
 	t.SetNbf(1)
@@ -153,6 +153,7 @@ type Params struct {
 	XHeaders  [][2]string
 	Shape     string // Get: "" | "payload-only" | "range"
 	Target    oid.ID // addressed object (Get/Head/GetRange/Delete); zero = the world's R1
+	PutAttr   string // value of attribute cls of the object a Put carries; "" = secret
 }
 
 func (p Params) meta() *protosession.RequestMetaHeader {
@@ -166,8 +167,11 @@ func (p Params) meta() *protosession.RequestMetaHeader {
 
 // NewPutObject is the object client PUT requests carry: owner-signed, attribute cls=secret (so the
 // object-header eACL rule matches it), 40-byte payload.
-func NewPutObject(cnr cid.ID) *object.Object {
-	return NewObject(cnr, SecretAttr, SecretVal, []byte("new-object-payload-0123456789-0123456789"))
+func NewPutObject(cnr cid.ID, attrVal string) *object.Object {
+	if attrVal == "" {
+		attrVal = SecretVal
+	}
+	return NewObject(cnr, SecretAttr, attrVal, []byte("new-object-payload-0123456789-0123456789"))
 }
 
 // BuildRequests returns the unsigned request message(s) of a valid client call of the method:
@@ -208,7 +212,7 @@ func (w *World) BuildRequests(method string, p Params) ([]any, error) {
 			Count: 10, Filters: []*protoobject.SearchFilter{{Key: SecretAttr, MatchType: protoobject.MatchType_STRING_EQUAL, Value: SecretVal}},
 			Attributes: []string{SecretAttr}}, MetaHeader: p.meta()}}, nil
 	case "Put":
-		o := NewPutObject(cnr)
+		o := NewPutObject(cnr, p.PutAttr)
 		m := o.ProtoMessage()
 		init := &protoobject.PutRequest{Body: &protoobject.PutRequest_Body{ObjectPart: &protoobject.PutRequest_Body_Init_{
 			Init: &protoobject.PutRequest_Body_Init{ObjectId: m.ObjectId, Signature: m.Signature, Header: m.Header}}},
@@ -269,4 +273,80 @@ func (w *World) ReplicateRequest(nodeLabel string) (*protoobject.ReplicateReques
 	}
 	return &protoobject.ReplicateRequest{Object: o.ProtoMessage(), Signature: &refs.Signature{
 		Key: Pub(nodeLabel), Sign: sig, Scheme: refs.SignatureScheme(neofscrypto.ECDSA_DETERMINISTIC_SHA256)}}, o
+}
+
+// CorruptBody changes the request body after it was signed (one byte of the addressed object /
+// container ID, of the put header attribute or of the payload chunk). For an unknown request type
+// the first address / container ID field found in the body is changed.
+func CorruptBody(req any) error {
+	flipOID := func(a *refs.Address) {
+		v := append([]byte(nil), a.ObjectId.Value...)
+		v[0] ^= 1
+		a.ObjectId = &refs.ObjectID{Value: v}
+	}
+	flipCID := func(c *refs.ContainerID) *refs.ContainerID {
+		v := append([]byte(nil), c.Value...)
+		v[0] ^= 1
+		return &refs.ContainerID{Value: v}
+	}
+	switch r := req.(type) {
+	case *protoobject.PutRequest:
+		switch p := r.Body.ObjectPart.(type) {
+		case *protoobject.PutRequest_Body_Init_:
+			p.Init.CopiesNumber++
+		case *protoobject.PutRequest_Body_Chunk:
+			c := append([]byte(nil), p.Chunk...)
+			c[0] ^= 1
+			p.Chunk = c
+		}
+		return nil
+	}
+	body := reflect.ValueOf(req).Elem().FieldByName("Body")
+	if !body.IsValid() || body.IsNil() {
+		return fmt.Errorf("no body to corrupt in %T", req)
+	}
+	for i := 0; i < body.Elem().NumField(); i++ {
+		f := body.Elem().Field(i)
+		if !f.CanSet() {
+			continue
+		}
+		switch v := f.Interface().(type) {
+		case *refs.Address:
+			if v != nil {
+				flipOID(v)
+				return nil
+			}
+		case *refs.ContainerID:
+			if v != nil {
+				f.Set(reflect.ValueOf(flipCID(v)))
+				return nil
+			}
+		}
+	}
+	return fmt.Errorf("do not know how to corrupt the body of %T", req)
+}
+
+// CorruptMeta changes the meta header after signing (adds an X-header).
+func CorruptMeta(req any) {
+	mh := reflect.ValueOf(req).MethodByName("GetMetaHeader").Call(nil)[0].Interface().(*protosession.RequestMetaHeader)
+	mh.XHeaders = append(mh.XHeaders, &protosession.XHeader{Key: "X-Added-After-Signing", Value: "1"})
+}
+
+// ClaimKey overwrites the public key of every signature of the request's verification header
+// (the signatures then do not verify under the claimed key).
+func ClaimKey(req any, pub []byte) {
+	vh := reflect.ValueOf(req).MethodByName("GetVerifyHeader").Call(nil)[0].Interface().(*protosession.RequestVerificationHeader)
+	for ; vh != nil; vh = vh.Origin {
+		for _, s := range []*refs.Signature{vh.BodySignature, vh.MetaSignature, vh.OriginSignature} {
+			if s != nil {
+				s.Key = pub
+			}
+		}
+	}
+}
+
+// Unsign removes the verification header.
+func Unsign(req any) {
+	f := reflect.ValueOf(req).Elem().FieldByName("VerifyHeader")
+	f.Set(reflect.Zero(f.Type()))
 }
